@@ -19,6 +19,7 @@ use cascette_cache::key::{BlteBlockKey, ContentCacheKey};
 use cascette_cache::multi_layer::MultiLayerCacheImpl;
 use cascette_cache::ngdp::ContentAddressedCache;
 use cascette_cache::traits::{AsyncCache, MultiLayerCache};
+use cascette_cache::{CacheResult, CacheStats};
 use cascette_cache::validation::{Md5ValidationHooks, NgdpValidationHooks};
 use cascette_client_storage::index::ArchiveLocation;
 use cascette_client_storage::index::update::{UpdateEntry, UpdateSection, UpdateStatus};
@@ -26,12 +27,13 @@ use cascette_client_storage::lru::lru_file::{self, LruFileEntry, LruFileHeader};
 use cascette_client_storage::storage::local_header::LocalHeader;
 use cascette_client_storage::storage::segment::SegmentHeader;
 use cascette_crypto::{ContentKey, EncodingKey};
-use cascette_formats::archive::{ArchiveError, ArchiveIndex, ArchiveIndexBuilder, ChunkedArchiveIndex};
+use cascette_formats::archive::{ArchiveError, ArchiveIndex, ArchiveIndexBuilder, ChunkedArchiveIndex, IndexFooter};
 use cascette_formats::encoding::{CKeyEntryData, EKeyEntryData, EncodingBuilder, EncodingError, EncodingFile};
 use cascette_protocol::mime_parser::parse_v1_mime_response;
 use std::io::Cursor;
 use std::panic::AssertUnwindSafe;
-use std::sync::Arc;
+use std::sync::atomic::{AtomicUsize, Ordering};
+use std::sync::{Arc, Mutex};
 use verif_harness::*;
 
 /// `Md5ValidationHooks::should_skip_validation`: `data_size > 100 MiB` (a private const in the crate;
@@ -103,12 +105,12 @@ struct Eval {
     content: String,
     /// second-level observation: per-record validity etc. (kind specific)
     aux: String,
-    /// follow-up request line emitted after this one (`fields`, `v1ck`) with its response
-    follow: Option<(String, String)>,
+    /// follow-up request lines emitted after this one (`fields`, `fvalid`, `v1ck`, `encmap`) with their responses
+    follow: Vec<(String, String)>,
 }
 
 fn ev(resp: impl Into<String>, accepted: bool, content: impl Into<String>) -> Eval {
-    Eval { resp: resp.into(), accepted, content: content.into(), aux: String::new(), follow: None }
+    Eval { resp: resp.into(), accepted, content: content.into(), aux: String::new(), follow: vec![] }
 }
 
 fn eval_enc(d: &[u8]) -> Eval {
@@ -161,7 +163,7 @@ fn eval_enc(d: &[u8]) -> Eval {
                 aux.push('|');
             }
             e.aux = aux;
-            e.follow = Some(("encmap".into(), format!("ok ck={} ek={} especs={} x={x}", f.ckey_index.len(), f.ekey_index.len(), f.espec_table.entries.len())));
+            e.follow.push(("encmap".into(), format!("ok ck={} ek={} especs={} x={x}", f.ckey_index.len(), f.ekey_index.len(), f.espec_table.entries.len())));
             e
         }
         Ok(Err(e)) => {
@@ -180,7 +182,7 @@ fn eval_enc(d: &[u8]) -> Eval {
                 _ => "err:other",
             };
             let mut e = ev(cls, false, "");
-            e.follow = Some(("encmap".into(), "rejected".into()));
+            e.follow.push(("encmap".into(), "rejected".into()));
             e
         }
     }
@@ -197,30 +199,65 @@ fn aidx_class(e: &ArchiveError) -> &'static str {
     }
 }
 
+/// `IndexFooter::is_valid` BY ITSELF on the last 28 bytes of the file, read field by field into the
+/// public struct exactly as `ArchiveIndex::parse` does for a footer with 8 hash bytes: what the
+/// hash comparison alone says, whatever `validate_format` / `validate_file_size` think afterwards
+fn footer_valid(d: &[u8]) -> String {
+    if d.len() < 28 {
+        return "short".into();
+    }
+    let f = &d[d.len() - 28..];
+    let ft = IndexFooter {
+        toc_hash: f[0..8].try_into().unwrap(),
+        version: f[8],
+        reserved: [f[9], f[10]],
+        page_size_kb: f[11],
+        offset_bytes: f[12],
+        size_bytes: f[13],
+        ekey_length: f[14],
+        footer_hash_bytes: f[15],
+        element_count: u32::from_le_bytes(f[16..20].try_into().unwrap()),
+        footer_hash: f[20..28].to_vec(),
+    };
+    match catch(AssertUnwindSafe(|| ft.is_valid())) {
+        Ok(true) => "valid=1".into(),
+        Ok(false) => "valid=0".into(),
+        Err(_) => "panic".into(),
+    }
+}
+
 fn eval_aidx(d: &[u8]) -> Eval {
-    match catch(AssertUnwindSafe(|| ArchiveIndex::parse(Cursor::new(d)))) {
+    let fv = footer_valid(d);
+    let mut e = match catch(AssertUnwindSafe(|| ArchiveIndex::parse(Cursor::new(d)))) {
         Err(_) => ev("panic", false, ""),
         Ok(Ok(ix)) => {
             let f = &ix.footer;
             let fields = format!("v={} ob={} ekl={} cnt={}", f.version, f.offset_bytes, f.ekey_length, f.element_count);
             let content = format!("{fields} ps={} sb={} hb={} res={:?}", f.page_size_kb, f.size_bytes, f.footer_hash_bytes, f.reserved);
             let mut e = ev("pass", true, content);
-            e.follow = Some(("fields".into(), fields));
+            e.follow.push(("fields".into(), fields));
             e
         }
         Ok(Err(e)) => ev(aidx_class(&e), false, ""),
-    }
+    };
+    e.follow.push(("fvalid".into(), fv.clone()));
+    e.aux = fv;
+    e
 }
 
 fn eval_aidxc(d: &[u8], dir: &std::path::Path) -> Eval {
     let p = dir.join("x.index");
     std::fs::write(&p, d).expect("write tmp index");
-    match catch(AssertUnwindSafe(|| ChunkedArchiveIndex::open(&p))) {
+    let fv = footer_valid(d);
+    let mut e = match catch(AssertUnwindSafe(|| ChunkedArchiveIndex::open(&p))) {
         Err(_) => ev("panic", false, ""),
         // the struct's fields are private: acceptance is the only observable
         Ok(Ok(_)) => ev("pass", true, "-"),
         Ok(Err(e)) => ev(aidx_class(&e), false, ""),
-    }
+    };
+    e.follow.push(("fvalid".into(), fv.clone()));
+    e.aux = fv;
+    e
 }
 
 fn eval_lru(d: &[u8]) -> Eval {
@@ -327,7 +364,7 @@ fn eval_v1(d: &[u8]) -> Eval {
             };
             let mut e = ev("pass", true, r.data.clone());
             e.aux = if r.checksum.is_some() { "checked".into() } else { "unchecked".into() };
-            e.follow = Some(("v1ck".into(), ck));
+            e.follow.push(("v1ck".into(), ck));
             e
         }
         Ok(Err(e)) => {
@@ -502,6 +539,8 @@ struct Interp {
 enum Mutation {
     None,
     At(usize),
+    /// two bytes substituted at once (differences that cancel under XOR / sum / difference folds)
+    At2(usize, usize),
     Trunc(usize),
     Ins(usize),
 }
@@ -557,7 +596,7 @@ impl Interp {
                     if let Some((p, Some(c))) = v1_last_line(d) {
                         let occ = v1_occurrences(d);
                         let shape = format!("{} occurrence(s) of `Checksum: ` at {:?}, the last one (at {p}) is a well-formed line", occ.len(), occ);
-                        let used = e.follow.as_ref().map(|f| f.1.clone()).unwrap_or_default();
+                        let used = e.follow.first().map(|f| f.1.clone()).unwrap_or_default();
                         let altered = self.base_eval.as_ref().is_some_and(|b| b.accepted && b.content != e.content);
                         let mut what = if altered { "ALTERED data is returned as good".to_string() } else { "no corruption of the protected bytes can be noticed".to_string() };
                         let mut replay = replay.clone();
@@ -602,6 +641,7 @@ impl Interp {
         let protected = match m {
             Mutation::None => false,
             Mutation::At(p) => in_ranges(&self.prot, *p),
+            Mutation::At2(p, q) => in_ranges(&self.prot, *p) || in_ranges(&self.prot, *q),
             Mutation::Trunc(k) => *k < prot_end,
             Mutation::Ins(p) => *p < prot_end || (matches!(self.kind.as_str(), "aidx" | "aidxc") && *p <= n),
         };
@@ -623,10 +663,35 @@ impl Interp {
                     s.oracle_fail(&format!("{}-stored-digest-byte-not-compared", self.kind), &format!("changing byte {p} of the stored digest is accepted: {}", e.resp), &replay);
                 }
             }
-            if self.kind == "upd" && in_ranges(&self.prot, *p) && p % 512 % 24 < 4 {
-                let slot = p / 512 * 21 + p % 512 / 24;
-                if e.aux.chars().nth(slot) == Some('1') && b.aux.chars().nth(slot) == Some('1') {
-                    s.oracle_fail("upd-stored-digest-byte-not-compared", &format!("changing byte {p} of the stored hash guard of slot {slot} still validates"), &replay);
+        }
+        // … and a change of SEVERAL stored-digest bytes whose differences cancel under an XOR / sum /
+        // difference fold must be rejected just the same: acceptance means the comparison folds the
+        // byte differences instead of requiring every one of them to be zero
+        if let Mutation::At2(p, q) = m {
+            let st = stored_ranges(&self.kind, &self.base);
+            if e.accepted && in_ranges(&st, *p) && in_ranges(&st, *q) {
+                if self.kind == "v1" && e.aux == "unchecked" {
+                    if e.content == b.content {
+                        s.oracle_fail("v1-checksum-line-lost-unchecked", "a damaged Checksum line is treated as no checksum: the response is accepted unchecked", &replay);
+                    }
+                } else {
+                    s.oracle_fail(&format!("{}-stored-digest-pair-accepted", self.kind), &format!("changing bytes {p} and {q} of the stored digest together ({:02x}->{:02x}, {:02x}->{:02x}: differences that cancel under a fold) is accepted — the comparison is weaker than equality: {}", self.base[*p], d[*p], self.base[*q], d[*q], e.resp), &replay);
+                }
+            }
+        }
+        // update entries: a slot whose hashed bytes [4,23) are unchanged validates under ONE guard only
+        if self.kind == "upd" {
+            let ps: Vec<usize> = match m {
+                Mutation::At(p) => vec![*p],
+                Mutation::At2(p, q) => vec![*p, *q],
+                _ => vec![],
+            };
+            let mut slots: Vec<usize> = ps.iter().filter(|p| in_ranges(&self.prot, **p) && **p % 512 % 24 < 4).map(|p| p / 512 * 21 + p % 512 / 24).collect();
+            slots.dedup();
+            for slot in slots {
+                let o = slot / 21 * 512 + slot % 21 * 24;
+                if d.get(o + 4..o + 23) == self.base.get(o + 4..o + 23) && d.get(o..o + 4) != self.base.get(o..o + 4) && e.aux.chars().nth(slot) == Some('1') && b.aux.chars().nth(slot) == Some('1') {
+                    s.oracle_fail("upd-stored-digest-byte-not-compared", &format!("changing the stored hash guard of slot {slot} ({} -> {}) still validates", hex(&self.base[o..o + 4]), hex(&d[o..o + 4])), &replay);
                 }
             }
         }
@@ -639,6 +704,14 @@ impl Interp {
             "aidx" | "aidxc" => {
                 if e.accepted && e.content != b.content {
                     s.oracle_fail("aidx-footer-corruption-accepted", &format!("mutated footer accepted with different fields: {}", e.content), &replay);
+                }
+                // the hash comparison BY ITSELF ("or report invalid"): a footer whose hashed fields or
+                // stored hash differ from the valid base footer's must not be reported valid by
+                // IndexFooter::is_valid, whether or not validate_format / validate_file_size would
+                // stop the file afterwards. (Footers whose own size field says < 8 hash bytes are the
+                // documented short comparison of is_valid, unreachable through parse/open since 6b0ee35.)
+                if matches!(m, Mutation::At(_) | Mutation::At2(..)) && n >= 28 && d.len() == n && b.aux == "valid=1" && e.aux == "valid=1" && d[n - 13] >= 8 && d[n - 20..] != self.base[n - 20..] {
+                    s.oracle_fail("aidx-isvalid-accepts-corrupt-footer", &format!("IndexFooter::is_valid reports a corrupted footer valid: fields‖hash {} (valid base: {}); the file-level answer was {}", hex(&d[n - 20..]), hex(&self.base[n - 20..]), e.resp), &replay);
                 }
             }
             "upd" => {
@@ -700,7 +773,7 @@ impl Interp {
         let e = self.eval(&d);
         self.case_lines.push(req.to_string());
         s.line(req, &e.resp);
-        if let Some((q, r)) = &e.follow {
+        for (q, r) in &e.follow {
             self.case_lines.push(q.clone());
             s.line(q, r);
         }
@@ -782,6 +855,15 @@ impl Interp {
                 }
                 _ => s.line(req, "bad-op"),
             },
+            ["sub2", p1, x1, p2, x2] if art => match (p1.parse::<usize>().ok(), x1.parse::<usize>().ok(), p2.parse::<usize>().ok(), x2.parse::<usize>().ok()) {
+                (Some(p), Some(x), Some(q), Some(y)) if p < self.base.len() && q < self.base.len() && p != q && x < 256 && y < 256 => {
+                    let mut d = self.base.clone();
+                    d[p] = x as u8;
+                    d[q] = y as u8;
+                    self.run_mut(s, req, Mutation::At2(p, q), d);
+                }
+                _ => s.line(req, "bad-op"),
+            },
             ["trunc", n] if art => match n.parse::<usize>().ok() {
                 Some(n) if n <= self.base.len() => {
                     let d = self.base[..n].to_vec();
@@ -799,7 +881,7 @@ impl Interp {
                 _ => s.line(req, "bad-op"),
             },
             // follow-up lines are emitted by run_mut; in a replay file they are skipped here
-            ["fields"] | ["v1ck"] | ["encmap"] => {}
+            ["fields"] | ["fvalid"] | ["v1ck"] | ["encmap"] => {}
             _ if self.kind == "cache" => self.exec_cache(s, req, &t),
             _ => s.line(req, "bad-op"),
         }
